@@ -102,6 +102,15 @@ def impl(case):
                 a.seed(seed)
                 if run(a, calls) != ra:
                     flags.append(name + ":reseeding-does-not-restart-the-stream")
+            if name == "numpy" and isinstance(seed, list):
+                # a list seed changed in place and passed again is a NEW seed (nothing may be remembered by reference)
+                lst = list(seed)
+                g = mk(lst)
+                run(g, calls[:3])
+                lst[-1] = (lst[-1] + 1) % (1 << 32)
+                g.seed(lst)
+                if run(g, calls) != run(mk(list(lst)), calls):
+                    flags.append(name + ":re-seeding-with-a-mutated-list-is-not-seeding-with-its-contents")
             # snapshot at any point + replay
             c = mk(seed)
             cut = case["cut"] % (len(calls) + 1)
